@@ -18,6 +18,7 @@ def register(reg):
     register2(reg)
     register3(reg)
     register4(reg)
+    register5(reg)
     # ---------------------------------------------------------------- memo table access (C04)
     contract(reg, f'{K}:ParserCore.memo', ['C04', 'C03'], {'self': 'Ctx', 'key': 'MemoKeyR'}, ret='Outcome', modifies=[], wf=False,
              ensures=[('property', 'result == (self._memos.mvals[key] if self._memos.mkeys[key] else o_none())')])
@@ -136,3 +137,14 @@ def register4(reg):
                                      'self.states.callstack == old_self.states.callstack', MOK, ROK],
                      'ParseException': ['self.states.callstack == old_self.states.callstack']},
              propagates=[GROW, 'self.states.callstack == old_self.states.callstack'])
+
+
+def register5(reg):
+    # C11: the keyword table of a parse is the one of the configuration ACTIVE for that parse (so that the
+    # normalisation under ignorecase, done per configuration, and the lookup agree)
+    contract(reg, f'{K}:ParserCore._initialize_caches', ['C11', 'C10', 'C04'], {'self': 'Ctx'}, ret='None', verify=False, wf=False,
+             modifies=['self._memos', 'self._results', 'self.states.state_stack', 'self.states.callstack'],
+             note='allocates the memo tables (BoundedDict) and a fresh state stack; C10 checks the idle state in a bounded run')
+    contract(reg, f'{K}:ParserCore._reset', ['C11', 'C10'], {'self': 'Ctx'}, ret='None', wf=False,
+             modifies=['self._memos', 'self._results', 'self.states.state_stack', 'self.states.callstack', 'self.keywords', 'self.semantics'],
+             ensures=[('property', 'self.keywords == self._active_config.keywords')])
